@@ -266,6 +266,23 @@ func main() {
 		if r.err != nil && !hasV {
 			// a fatal runtime error (SIGSEGV from assembly, stack exhaustion ...) in a check that records its case in flight
 			inf := filepath.Join(parts, fmt.Sprintf("inflight.%s.%d.json", ID, s))
+			if bytes.Contains(r.out, []byte("WARNING: DATA RACE")) {
+				b, e := os.ReadFile(inf)
+				if e != nil { // the run went on after the report: no single plan to point at, the report itself is the evidence
+					b = []byte(`{"property":"` + ID + `","check":"race-report","message":"data race reported; see the .report.txt next to this file","case":null}`)
+				}
+				rp := filepath.Join(root, "replay", fmt.Sprintf("%s-race-shard%d-%x.json", ID, s, hashString(string(r.out))))
+				_ = os.MkdirAll(filepath.Dir(rp), 0o755)
+				_ = os.WriteFile(rp, b, 0o644)
+				rep := string(r.out)
+				if i := strings.Index(rep, "WARNING: DATA RACE"); i >= 0 {
+					rep = rep[i:]
+				}
+				_ = os.WriteFile(strings.TrimSuffix(rp, ".json")+".report.txt", []byte(rep), 0o644)
+				fmt.Printf("VIOLATION property=%s replay=%s\n  detail: the race detector reported a data race while the recorded plan ran; report head:\n%s\n", ID, rp, raceHead(rep))
+				violation = true
+				continue
+			}
 			if b, e := os.ReadFile(inf); e == nil && (bytes.Contains(r.out, []byte("fatal error:")) || bytes.Contains(r.out, []byte("SIGSEGV")) || bytes.Contains(r.out, []byte("unexpected fault address")) || bytes.Contains(r.out, []byte("SIGBUS")) || bytes.Contains(r.out, []byte("SIGILL"))) {
 				rp := filepath.Join(root, "replay", fmt.Sprintf("%s-crash-shard%d-%x.json", ID, s, hashString(string(b))))
 				_ = os.MkdirAll(filepath.Dir(rp), 0o755)
@@ -305,6 +322,23 @@ func main() {
 	}
 	fmt.Printf("OK property=%s tier=%s shards=%d wall=%.1fs\n", ID, *tier, shards, time.Since(start).Seconds())
 	exit(0)
+}
+
+// raceHead keeps the two access stacks of a race report, library frames first.
+func raceHead(rep string) string {
+	lines := strings.Split(rep, "\n")
+	var out []string
+	for _, ln := range lines {
+		t := strings.TrimSpace(ln)
+		if strings.HasPrefix(t, "WARNING: DATA RACE") || strings.HasPrefix(t, "Write at") || strings.HasPrefix(t, "Read at") || strings.HasPrefix(t, "Previous") ||
+			strings.Contains(t, "evanoberholster/imagemeta") && !strings.Contains(t, ".go:") {
+			out = append(out, "    "+t)
+		}
+		if len(out) >= 14 || strings.HasPrefix(t, "Goroutine ") {
+			break
+		}
+	}
+	return strings.Join(out, "\n")
 }
 
 // fatalPart cuts the output at the first fatal-error line.
